@@ -13,7 +13,14 @@ from concurrent.futures import ThreadPoolExecutor
 from .build import REPO, VERIF
 
 
+_T0 = [None]
+BUDGET = float(os.environ.get("VERIF_SENS_BUDGET", "3600"))     # seconds per property; a safety net, not a sampling device
+
+
 def _one(prop, name, patch, expect):
+    import time
+    if _T0[0] is not None and time.time() - _T0[0] > BUDGET:
+        return {"seed": name, "expected_exit": expect, "status": "skipped: time budget of %ds for the sensitivity replay exhausted" % BUDGET}
     tmp = tempfile.mkdtemp(prefix="verif-sens-")
     try:
         dst = os.path.join(tmp, "repo")
@@ -49,6 +56,8 @@ def run(prop, workers=6):
         by = m.get("checks_that_report_it") or m.get("confirmed_by_me", {}).get("checks_that_report_it") or []
         if prop in by:
             jobs.append((name, patch, 1))
+    import time
+    _T0[0] = time.time()
     with ThreadPoolExecutor(max_workers=workers) as ex:
         res = list(ex.map(lambda j: _one(prop, *j), jobs))
     ran = [r for r in res if "exit" in r]
@@ -57,7 +66,8 @@ def run(prop, workers=6):
                 "(each applied to a scratch copy of /repo's current working tree)",
         "mutants_reported": "%d/%d" % (sum(1 for r in ran if r["expected_exit"] == 1 and r["as_expected"]), sum(1 for r in ran if r["expected_exit"] == 1)),
         "probes_silent": "%d/%d" % (sum(1 for r in ran if r["expected_exit"] == 0 and r["as_expected"]), sum(1 for r in ran if r["expected_exit"] == 0)),
-        "not_applicable": [r["seed"] for r in res if "exit" not in r],
+        "not_applicable": [r["seed"] for r in res if "exit" not in r and not str(r.get("status", "")).startswith("skipped")],
+        "skipped_for_time": [r["seed"] for r in res if str(r.get("status", "")).startswith("skipped")],
         "unexpected": [r for r in ran if not r["as_expected"]],
         "details": [{k: r[k] for k in ("seed", "expected_exit", "exit", "rules_reporting") if k in r} for r in ran],
     }
